@@ -217,9 +217,12 @@ def check_timeouts():
         lk.owner = None
         assert lk.acquire(timeout=1) is True and lk.owner == "T1"
         lk.release()
-        t0 = time.time()
+        real = env.REAL["time.time"]
+        t0, v0 = real(), time.time()
         time.sleep(5)
-        assert time.time() - t0 < 1, "time.sleep really slept on a controlled thread"
+        assert real() - t0 < 1, "time.sleep really slept on a controlled thread"
+        assert abs((time.time() - v0) - 5) < 1e-6 and abs((time.monotonic_ns() - 1000 * 10 ** 9) / 1e9 - env.STATE.vclock) < 1e-3, \
+            "virtual clock of the execution did not advance by the sleep"
     finally:
         env.CUR.w = None
     assert {"wait-timeout", "acquire-timeout", "sleep"} <= set(seen), seen
